@@ -129,7 +129,6 @@ def two_step_work(args):
                         probs = wf_problems(res)
                         if probs:
                             fails.append({"prop": "C07", "clause": "two-step/structure/well-formed", "cfg": rb, "detail": f"{where}: {probs[0]}", "input": text, "shape": {}})
-                            continue
                         for env, b in zip(ASSIGNMENTS, before):
                             try:
                                 a = evaluate(res, env)
@@ -148,6 +147,7 @@ def two_step_work(args):
 
 
 TWO_STEP = [
+    "(x * y) * (b + c)", "(2x) * (y + 3)", "(x * y) * (2 + 3)", "(b + c) * (x * y)", "(x / 2) * (y + 3)", "x^2 * (4y + 7)",
     "(x + 2 * 3) + y", "(2 * 3 + x) + y", "(4x + 2 * 3) + 2x", "(x * (2 + 3)) * y", "(a + b) + (2 + 3)", "4x + (2x + 3)", "2 * (3 + x) * y", "(x + 1) * (y + 2)", "4x * 2y * 5x",
     "x + 2 + 3 = 7", "2 * (x + 3) = 4", "3x + 7 = 2 + 4x", "4 - (2x + 3)", "(x / y) * (2 + 3)", "x^2 * x * 2 * 3", "-(2 + 3) * x + 4x", "7 - 2 - 3 + x", "(2 + x) + (3 + x)",
 ]
